@@ -53,7 +53,15 @@ def build(kinds):
         if i == 0:
             continue        # the parent's own entry
         domt, field, infot, _ = CHILD[kinds[i - 1]]
-        item = K.mk_obj(infot, K.INFO, context=ctx)
+        # what the node's own PartialEq compares: one symbolic character (two children may or may not look alike)
+        lab, lc = K.sym_str("lab%d_" % i, 1)
+        cons.append(sym.to_z3(lc))
+        lab = kernel.SStr(lab)
+        data = {"XmlElement": dict(local_name=lab, prefix=NONE, children=SVec(), attributes=SVec()), "XmlText": dict(text=lab), "XmlCData": dict(data=lab),
+                "XmlComment": dict(comment=lab), "XmlProcessingInstruction": dict(target=lab, content=NONE),
+                "XmlUnexpandedEntityReference": dict(name=lab, entity=K.mk_obj("XmlEntity", K.INFO, name=lab, values=NONE, system_identifier=NONE,
+                                                                                 public_identifier=NONE, notation_name=NONE))}[infot]
+        item = K.mk_obj(infot, K.INFO, context=ctx, **data)
         if kinds[i - 1] == "EntityReference":
             item = K.mk_enum("XmlEntityReferenceValue", K.DOM, "Entity", item)
         nodes.append(K.mk_enum("XmlNode", K.DOM, kinds[i - 1], K.mk_obj(domt, K.DOM, **{field: item})))
@@ -100,7 +108,10 @@ def decide_shape(parent_kind, kinds, timeout_s=60):
                     r, nodes = p["value"]
                     if r.variant == "Some":
                         got = [n is r.fields[0] for n in nodes].index(True) if any(n is r.fields[0] for n in nodes) else "?"
+                labels = [K.model_str(mdl, K.sym_str("lab%d_" % (c + 1), 1)[0]) for c in range(len(kinds))]
+                classes = [labels.index(x) for x in labels]
                 return "sat", {"fn": fn, "child": i, "model_returns_child": got, "expected_child": (i + step) if 0 <= i + step < len(kinds) else None,
+                               "look_alike_classes": classes,
                                "panic": p.get("msg") if p["kind"] == "panic" else None}, queries + I.feas_queries, npaths, K.fn_table(I)
             if verdict != "holds":
                 return "unknown", str(info), queries + I.feas_queries, npaths, K.fn_table(I)
@@ -117,12 +128,13 @@ def work(job):
         return {"job": (parent_kind, kinds), "status": "error", "error": "%s: %s" % (type(e).__name__, e), "queries": 0, "paths": 0, "fns": {}, "wall": time.time() - t0}
 
 
-def render(kinds):
-    """a document whose root has children of these kinds, each with a label of its own"""
+def render(kinds, classes=None):
+    """a document whose root has children of these kinds; children of one look-alike class get the same text"""
+    classes = classes or list(range(len(kinds)))
+
     def one(k, i):
-        t = CHILD[k][3]
-        return {"Element": "<e%d/>", "Text": "t%d", "CData": "<![CDATA[c%d]]>", "Comment": "<!--c%d-->", "PI": "<?p%d?>", "EntityReference": "&e%d;"}[k] % i
-    decls = "".join("<!ENTITY e%d 'v%d'>" % (i, i) for i, k in enumerate(kinds) if k == "EntityReference")
+        return {"Element": "<e%d/>", "Text": "t%d", "CData": "<![CDATA[c%d]]>", "Comment": "<!--c%d-->", "PI": "<?p%d?>", "EntityReference": "&e%d;"}[k] % classes[i]
+    decls = "".join("<!ENTITY e%d 'v%d'>" % (c, c) for c in sorted(set(classes[i] for i, k in enumerate(kinds) if k == "EntityReference")))
     return ("<!DOCTYPE r [%s]>" % decls if decls else "") + "<r>" + "".join(one(k, i) for i, k in enumerate(kinds)) + "</r>"
 
 
@@ -179,7 +191,7 @@ def obligations(rep, rp, tier, jobs_n=16):
         pk, kinds = res["job"]
         if pk != "Element":
             continue
-        doc = render(kinds)
+        doc = render(kinds, res["detail"].get("look_alike_classes"))
         rr = rp.run({"op": "siblings", "input": doc})
         rep.replays += 1
         d = res["detail"]
